@@ -2,6 +2,8 @@ package rules
 
 import (
 	"fmt"
+	"math/big"
+	"sort"
 	"go/token"
 	"go/types"
 	"strings"
@@ -136,4 +138,63 @@ func lastPos(b *ssa.BasicBlock) (p token.Pos) {
 		}
 	}
 	return 0
+}
+
+// checkEveryErrorStatusDecodes (R10.21): the reply decoder maps every error status the protocol layer knows to an
+// error. The set of statuses is read from the encoder's table (errorToCode: one status per error value); for each of
+// them the decoder is evaluated with the status field fixed to that constant (constant propagation through its
+// comparisons, range tests and table lookups - the machinery of R18.15) and must not reach `return nil`. A status that
+// decodes to nil is a refused write taken for a success: the orchestrator skips the compensating L1 delete and
+// acknowledges, and later reads return the value from before the write.
+func checkEveryErrorStatusDecodes(c *core.Ctx, rule string) {
+	dec := c.P.Func("protocol/binprot", "DecodeError")
+	enc := findFunc(c, "protocol/binprot", "errorToCode", roleStatusEncoder)
+	if dec == nil || enc == nil {
+		c.Undecided(rule, "binprot.DecodeError#statuses", "-", "DecodeError or errorToCode not found")
+		return
+	}
+	encT := map[string]int64{}
+	for _, r := range ssax.Returns(enc) {
+		if k, ok := ssax.ConstInt(r.Results[0]); ok {
+			for _, ec := range ssax.DomConds(r.Block()) {
+				if bo, ok := ec.Cond.(*ssa.BinOp); ok && bo.Op == token.EQL && ec.True {
+					if s := ssax.SentinelOf(bo.Y); s != "" {
+						encT[s] = k
+					} else if s := ssax.SentinelOf(bo.X); s != "" {
+						encT[s] = k
+					}
+				}
+			}
+		}
+	}
+	if len(encT) < 10 {
+		c.Undecided(rule, "binprot.DecodeError#statuses", c.P.Pos(enc.Pos()), fmt.Sprintf("only %d error/status pairs could be read from the encoder", len(encT)))
+		return
+	}
+	var names []string
+	for s := range encT {
+		names = append(names, s)
+	}
+	sort.Strings(names)
+	for _, s := range names {
+		k := encT[s]
+		key := fmt.Sprintf("binprot.DecodeError#status:0x%02x", k)
+		bi := &bucketInterp{c: c, fn: dec, tables: map[*ssa.Global]map[int64]int64{}, word: 8, budget: 10000, inputField: "Status",
+			bitFunc: func(*ssa.Function) bool { return false }}
+		bi.run(big.NewInt(k), big.NewInt(k))
+		switch {
+		case len(bi.undec) > 0:
+			c.Undecided(rule, key, c.P.Pos(dec.Pos()), "the decoder leaves the closed form: "+bi.undec[0])
+		case len(bi.pieces) == 0:
+			c.Undecided(rule, key, c.P.Pos(dec.Pos()), "no return reached")
+		default:
+			bad := ""
+			for _, p := range bi.pieces {
+				if p.res.isConst && p.res.k.Sign() == 0 {
+					bad = fmt.Sprintf("status 0x%02x (the status of %s) reaches `return nil` at %s", k, s, c.P.Pos(p.pos))
+				}
+			}
+			c.Check(bad == "", rule, key, c.P.Pos(dec.Pos()), "decodes to an error", bad+": a backend reply with this error status is taken for a success - a refused write is acknowledged and not compensated")
+		}
+	}
 }
